@@ -1,1 +1,481 @@
-//! Placeholder for the tokio transport seam (built only with the `tokio` feature).
+//! The tokio transport seam: `TcpListener` / `TcpStream` as in-memory ordered byte streams
+//! for a `current_thread` runtime with a paused clock (`start_paused`), so that delivery
+//! delays are `tokio::time` timers on the virtual clock and one seed decides every latency,
+//! segmentation cut and short read.  Same semantics as `crate::net`: writes are cut into
+//! segments, each delivered at `max(previous delivery, now + latency)`; FIN after in-flight
+//! data; RST; bounded receive window.
+
+use crate::net::Seg;
+use crate::rng::Rng;
+
+use std::collections::{BTreeMap, VecDeque};
+use std::future::Future;
+use std::io;
+use std::net::{IpAddr, Ipv4Addr, Ipv6Addr, SocketAddr};
+use std::pin::Pin;
+use std::sync::{Arc, Mutex};
+use std::task::{Context, Poll, Waker};
+use std::time::Duration;
+
+use tokio::io::{AsyncRead, AsyncWrite, ReadBuf};
+use tokio::time::{Instant, Sleep};
+
+pub use tokio::net::ToSocketAddrs;
+
+#[derive(Clone, Debug)]
+pub struct Config {
+    pub seed: u64,
+    pub latency_min_us: u64,
+    pub latency_max_us: u64,
+    pub rx_capacity: usize,
+    pub short_read_permille: u32,
+    pub default_seg: Seg,
+}
+
+impl Default for Config {
+    fn default() -> Self {
+        Config { seed: 1, latency_min_us: 50, latency_max_us: 200, rx_capacity: 256 * 1024, short_read_permille: 0, default_seg: Seg::Whole }
+    }
+}
+
+enum Item {
+    Data(Vec<u8>),
+    Fin,
+    Rst,
+}
+
+struct Ep {
+    local: SocketAddr,
+    peer: SocketAddr,
+    rx: VecDeque<u8>,
+    inflight: VecDeque<(Instant, Item)>,
+    inflight_bytes: usize,
+    last_at: Option<Instant>,
+    fin_rcvd: bool,
+    rst_rcvd: bool,
+    closed: bool,
+    wr_shut: bool,
+    cap: usize,
+    seg: Option<Seg>,
+    read_waker: Option<Waker>,
+    write_waker: Option<Waker>,
+    delivered_total: u64,
+}
+
+struct ListenerState {
+    backlog: VecDeque<usize>,
+    waker: Option<Waker>,
+}
+
+struct Net {
+    cfg: Config,
+    rng: Rng,
+    listeners: BTreeMap<SocketAddr, ListenerState>,
+    eps: Vec<Ep>,
+    next_port: u16,
+    counters: BTreeMap<&'static str, u64>,
+}
+
+static NET: Mutex<Option<Net>> = Mutex::new(None);
+
+fn with_net<R>(f: impl FnOnce(&mut Net) -> R) -> io::Result<R> {
+    let mut g = NET.lock().unwrap_or_else(|e| e.into_inner());
+    match g.as_mut() {
+        Some(n) => Ok(f(n)),
+        None => Err(io::Error::new(io::ErrorKind::Unsupported, "humsim::tokio_net used outside a simulation")),
+    }
+}
+
+/// Start a fresh simulated network (call inside the runtime, before the code under test).
+pub fn reset(cfg: Config) {
+    let rng = Rng::new(cfg.seed);
+    *NET.lock().unwrap_or_else(|e| e.into_inner()) = Some(Net { cfg, rng, listeners: BTreeMap::new(), eps: Vec::new(), next_port: 40_000, counters: BTreeMap::new() });
+}
+
+/// End the simulation: drop all state, return the counters.
+pub fn finish() -> BTreeMap<String, u64> {
+    let n = NET.lock().unwrap_or_else(|e| e.into_inner()).take();
+    n.map(|n| n.counters.iter().map(|(k, v)| (k.to_string(), *v)).collect()).unwrap_or_default()
+}
+
+impl Net {
+    fn count(&mut self, k: &'static str) {
+        *self.counters.entry(k).or_insert(0) += 1;
+    }
+    fn push(&mut self, to: usize, item: Item, later_segment: bool) {
+        let lat = self.cfg.latency_min_us + self.rng.below(self.cfg.latency_max_us.max(self.cfg.latency_min_us) - self.cfg.latency_min_us + 1);
+        let now = Instant::now();
+        let e = &mut self.eps[to];
+        let mut at = now + Duration::from_micros(lat);
+        if let Some(l) = e.last_at {
+            if at < l {
+                at = l;
+            }
+            if later_segment {
+                at = l.max(now + Duration::from_micros(self.cfg.latency_min_us)) + Duration::from_nanos(1 + (lat * 7) % 500);
+            }
+        }
+        e.last_at = Some(at);
+        if let Item::Data(d) = &item {
+            e.inflight_bytes += d.len();
+        }
+        e.inflight.push_back((at, item));
+        if let Some(w) = e.read_waker.take() {
+            w.wake();
+        }
+    }
+    /// Move due items into the receive buffer; returns the instant of the next pending one.
+    fn deliver(&mut self, ep: usize) -> Option<Instant> {
+        let now = Instant::now();
+        let e = &mut self.eps[ep];
+        while let Some((at, _)) = e.inflight.front() {
+            if *at > now {
+                return Some(*at);
+            }
+            let (_, item) = e.inflight.pop_front().unwrap();
+            match item {
+                Item::Data(d) => {
+                    e.inflight_bytes -= d.len();
+                    if !e.closed {
+                        e.delivered_total += d.len() as u64;
+                        e.rx.extend(d);
+                    }
+                }
+                Item::Fin => e.fin_rcvd = true,
+                Item::Rst => e.rst_rcvd = true,
+            }
+        }
+        None
+    }
+    fn find_listener(&self, dst: SocketAddr) -> Option<SocketAddr> {
+        if self.listeners.contains_key(&dst) {
+            return Some(dst);
+        }
+        let unspec: IpAddr = if dst.is_ipv4() { IpAddr::V4(Ipv4Addr::UNSPECIFIED) } else { IpAddr::V6(Ipv6Addr::UNSPECIFIED) };
+        let k = SocketAddr::new(unspec, dst.port());
+        if self.listeners.contains_key(&k) {
+            Some(k)
+        } else {
+            None
+        }
+    }
+    fn close(&mut self, ep: usize, rst: bool) {
+        let peer = ep ^ 1;
+        if self.eps[ep].closed {
+            return;
+        }
+        self.eps[ep].closed = true;
+        let was_shut = self.eps[ep].wr_shut;
+        self.eps[ep].wr_shut = true;
+        self.eps[ep].rx.clear();
+        if rst {
+            self.push(peer, Item::Rst, false);
+            self.count("tnet.rst_sent");
+        } else if !was_shut {
+            self.push(peer, Item::Fin, false);
+        }
+        if let Some(w) = self.eps[peer].write_waker.take() {
+            w.wake();
+        }
+    }
+}
+
+async fn resolve<A: ToSocketAddrs>(a: A) -> io::Result<SocketAddr> {
+    tokio::net::lookup_host(a).await?.next().ok_or_else(|| io::Error::new(io::ErrorKind::InvalidInput, "no address"))
+}
+
+pub struct TcpListener {
+    addr: SocketAddr,
+}
+
+impl TcpListener {
+    pub async fn bind<A: ToSocketAddrs>(addr: A) -> io::Result<TcpListener> {
+        let addr = resolve(addr).await?;
+        with_net(|n| {
+            let conflict = n.listeners.keys().any(|k| k.port() == addr.port() && k.is_ipv4() == addr.is_ipv4() && (k.ip() == addr.ip() || k.ip().is_unspecified() || addr.ip().is_unspecified()));
+            if conflict {
+                return Err(io::Error::new(io::ErrorKind::AddrInUse, "address in use (simulated)"));
+            }
+            n.listeners.insert(addr, ListenerState { backlog: VecDeque::new(), waker: None });
+            Ok(TcpListener { addr })
+        })?
+    }
+
+    pub fn local_addr(&self) -> io::Result<SocketAddr> {
+        Ok(self.addr)
+    }
+
+    pub fn poll_accept(&self, cx: &mut Context<'_>) -> Poll<io::Result<(TcpStream, SocketAddr)>> {
+        let r = with_net(|n| match n.listeners.get_mut(&self.addr) {
+            None => Poll::Ready(Err(io::Error::new(io::ErrorKind::InvalidInput, "listener closed"))),
+            Some(l) => match l.backlog.pop_front() {
+                Some(ep) => Poll::Ready(Ok(ep)),
+                None => {
+                    l.waker = Some(cx.waker().clone());
+                    Poll::Pending
+                }
+            },
+        });
+        match r {
+            Err(e) => Poll::Ready(Err(e)),
+            Ok(Poll::Pending) => Poll::Pending,
+            Ok(Poll::Ready(Err(e))) => Poll::Ready(Err(e)),
+            Ok(Poll::Ready(Ok(ep))) => {
+                let peer = with_net(|n| n.eps[ep].peer).unwrap();
+                Poll::Ready(Ok((TcpStream { ep, sleep: None }, peer)))
+            }
+        }
+    }
+
+    pub async fn accept(&self) -> io::Result<(TcpStream, SocketAddr)> {
+        std::future::poll_fn(|cx| self.poll_accept(cx)).await
+    }
+}
+
+impl Drop for TcpListener {
+    fn drop(&mut self) {
+        let _ = with_net(|n| {
+            if let Some(l) = n.listeners.remove(&self.addr) {
+                for ep in l.backlog {
+                    n.close(ep, true);
+                }
+            }
+        });
+    }
+}
+
+pub struct TcpStream {
+    ep: usize,
+    sleep: Option<Pin<Box<Sleep>>>,
+}
+
+impl TcpStream {
+    pub async fn connect<A: ToSocketAddrs>(addr: A) -> io::Result<TcpStream> {
+        let dst = resolve(addr).await?;
+        Self::connect_from(None, dst).await
+    }
+
+    /// Harness extension: choose the source address.
+    pub async fn connect_from(src: Option<SocketAddr>, dst: SocketAddr) -> io::Result<TcpStream> {
+        // a decision point for task interleaving
+        tokio::task::yield_now().await;
+        with_net(|n| {
+            let mut target = dst;
+            if dst.ip().is_unspecified() {
+                target.set_ip(if dst.is_ipv4() { IpAddr::V4(Ipv4Addr::LOCALHOST) } else { IpAddr::V6(Ipv6Addr::LOCALHOST) });
+            }
+            let key = match n.find_listener(target) {
+                Some(k) => k,
+                None => {
+                    n.count("tnet.connect_refused");
+                    return Err(io::Error::new(io::ErrorKind::ConnectionRefused, "connection refused (simulated)"));
+                }
+            };
+            let local = src.unwrap_or_else(|| {
+                let ip = if target.is_ipv4() { IpAddr::V4(Ipv4Addr::LOCALHOST) } else { IpAddr::V6(Ipv6Addr::LOCALHOST) };
+                SocketAddr::new(ip, 0)
+            });
+            let local = if local.port() == 0 {
+                let p = n.next_port;
+                n.next_port += 1;
+                SocketAddr::new(local.ip(), p)
+            } else {
+                local
+            };
+            let cap = n.cfg.rx_capacity;
+            let mk = |local, peer| Ep { local, peer, rx: VecDeque::new(), inflight: VecDeque::new(), inflight_bytes: 0, last_at: None, fin_rcvd: false, rst_rcvd: false, closed: false, wr_shut: false, cap, seg: None, read_waker: None, write_waker: None, delivered_total: 0 };
+            let ci = n.eps.len();
+            n.eps.push(mk(local, target));
+            n.eps.push(mk(target, local));
+            let l = n.listeners.get_mut(&key).unwrap();
+            l.backlog.push_back(ci + 1);
+            if let Some(w) = l.waker.take() {
+                w.wake();
+            }
+            n.count("tnet.connect_ok");
+            Ok(TcpStream { ep: ci, sleep: None })
+        })?
+    }
+
+    pub fn peer_addr(&self) -> io::Result<SocketAddr> {
+        with_net(|n| n.eps[self.ep].peer)
+    }
+    pub fn local_addr(&self) -> io::Result<SocketAddr> {
+        with_net(|n| n.eps[self.ep].local)
+    }
+    pub fn set_nodelay(&self, _: bool) -> io::Result<()> {
+        Ok(())
+    }
+    /// Harness extensions.
+    pub fn sim_set_seg(&self, seg: Seg) {
+        let _ = with_net(|n| n.eps[self.ep].seg = Some(seg));
+    }
+    pub fn sim_set_window(&self, cap: usize) {
+        let _ = with_net(|n| n.eps[self.ep].cap = cap.max(1));
+    }
+    pub fn sim_reset(&self) {
+        let _ = with_net(|n| n.close(self.ep, true));
+    }
+    pub fn sim_delivered(&self) -> u64 {
+        with_net(|n| n.eps[self.ep].delivered_total).unwrap_or(0)
+    }
+}
+
+impl Drop for TcpStream {
+    fn drop(&mut self) {
+        let _ = with_net(|n| n.close(self.ep, false));
+    }
+}
+
+impl AsyncRead for TcpStream {
+    fn poll_read(mut self: Pin<&mut Self>, cx: &mut Context<'_>, buf: &mut ReadBuf<'_>) -> Poll<io::Result<()>> {
+        let ep = self.ep;
+        let r = with_net(|n| {
+            let next = n.deliver(ep);
+            let short = n.cfg.short_read_permille;
+            let e = &mut n.eps[ep];
+            if !e.rx.is_empty() {
+                let mut k = buf.remaining().min(e.rx.len());
+                if k == 0 {
+                    return Ok(Poll::Ready(()));
+                }
+                let mut cut = false;
+                if short > 0 && k > 1 && n.rng.below(1000) < short as u64 {
+                    k = 1 + n.rng.below(k as u64 - 1) as usize;
+                    cut = true;
+                }
+                let e = &mut n.eps[ep];
+                let (a, b) = e.rx.as_slices();
+                if k <= a.len() {
+                    buf.put_slice(&a[..k]);
+                } else {
+                    buf.put_slice(a);
+                    buf.put_slice(&b[..k - a.len()]);
+                }
+                e.rx.drain(..k);
+                if cut {
+                    n.count("tnet.short_read");
+                }
+                if let Some(w) = n.eps[ep ^ 1].write_waker.take() {
+                    w.wake();
+                }
+                return Ok(Poll::Ready(()));
+            }
+            if e.rst_rcvd {
+                return Err(io::Error::new(io::ErrorKind::ConnectionReset, "connection reset (simulated)"));
+            }
+            if e.fin_rcvd || e.closed {
+                return Ok(Poll::Ready(())); // EOF
+            }
+            e.read_waker = Some(cx.waker().clone());
+            Ok(Poll::Pending::<()>).map(|p| {
+                let _ = next;
+                p
+            })
+        });
+        let next_at = with_net(|n| n.eps[ep].inflight.front().map(|x| x.0)).ok().flatten();
+        match r {
+            Err(e) => Poll::Ready(Err(e)),
+            Ok(Err(e)) => Poll::Ready(Err(e)),
+            Ok(Ok(Poll::Ready(()))) => {
+                self.sleep = None;
+                Poll::Ready(Ok(()))
+            }
+            Ok(Ok(Poll::Pending)) => {
+                // arm a timer for the next in-flight segment
+                if let Some(at) = next_at {
+                    let mut s = Box::pin(tokio::time::sleep_until(at));
+                    if s.as_mut().poll(cx).is_ready() {
+                        cx.waker().wake_by_ref();
+                    }
+                    self.sleep = Some(s);
+                }
+                Poll::Pending
+            }
+        }
+    }
+}
+
+impl AsyncWrite for TcpStream {
+    fn poll_write(self: Pin<&mut Self>, cx: &mut Context<'_>, buf: &[u8]) -> Poll<io::Result<usize>> {
+        let ep = self.ep;
+        let peer = ep ^ 1;
+        let r = with_net(|n| {
+            // the peer's buffer drains only when it reads; account for what is due
+            let _ = n.deliver(peer);
+            let e = &n.eps[ep];
+            if e.wr_shut || e.closed {
+                return Err(io::Error::new(io::ErrorKind::BrokenPipe, "write after shutdown (simulated)"));
+            }
+            if e.rst_rcvd {
+                return Err(io::Error::new(io::ErrorKind::ConnectionReset, "connection reset (simulated)"));
+            }
+            if buf.is_empty() {
+                return Ok(Poll::Ready(0));
+            }
+            let p = &n.eps[peer];
+            if p.closed {
+                n.count("tnet.write_to_closed_peer");
+                return Err(io::Error::new(io::ErrorKind::BrokenPipe, "peer closed (simulated)"));
+            }
+            let used = p.rx.len() + p.inflight_bytes;
+            if used >= p.cap {
+                n.count("tnet.window_full");
+                n.eps[ep].write_waker = Some(cx.waker().clone());
+                return Ok(Poll::Pending);
+            }
+            let k = buf.len().min(p.cap - used);
+            let seg = e.seg.clone().unwrap_or_else(|| n.cfg.default_seg.clone());
+            let mut cuts: Vec<usize> = match seg {
+                Seg::Whole => vec![],
+                Seg::OneByte => (1..k).collect(),
+                Seg::Fixed(x) => (1..k).filter(|i| i % x.max(1) == 0).collect(),
+                Seg::Random(m) => {
+                    let mut c = std::collections::BTreeSet::new();
+                    if k > 1 {
+                        for _ in 0..n.rng.below(m as u64 + 1) {
+                            c.insert(1 + n.rng.below(k as u64 - 1) as usize);
+                        }
+                    }
+                    c.into_iter().collect()
+                }
+            };
+            cuts.push(k);
+            let mut start = 0;
+            let mut first = true;
+            if cuts.len() > 1 {
+                n.count("tnet.segmented_write");
+            }
+            for c in cuts {
+                n.push(peer, Item::Data(buf[start..c].to_vec()), !first);
+                start = c;
+                first = false;
+            }
+            Ok(Poll::Ready(k))
+        });
+        match r {
+            Err(e) | Ok(Err(e)) => Poll::Ready(Err(e)),
+            Ok(Ok(Poll::Pending)) => Poll::Pending,
+            Ok(Ok(Poll::Ready(k))) => Poll::Ready(Ok(k)),
+        }
+    }
+    fn poll_flush(self: Pin<&mut Self>, _cx: &mut Context<'_>) -> Poll<io::Result<()>> {
+        Poll::Ready(Ok(()))
+    }
+    fn poll_shutdown(self: Pin<&mut Self>, _cx: &mut Context<'_>) -> Poll<io::Result<()>> {
+        let ep = self.ep;
+        let _ = with_net(|n| {
+            if !n.eps[ep].wr_shut && !n.eps[ep].closed {
+                n.eps[ep].wr_shut = true;
+                n.push(ep ^ 1, Item::Fin, false);
+            }
+        });
+        Poll::Ready(Ok(()))
+    }
+}
+
+impl std::fmt::Debug for TcpStream {
+    fn fmt(&self, f: &mut std::fmt::Formatter<'_>) -> std::fmt::Result {
+        write!(f, "SimTokioTcpStream(ep {})", self.ep)
+    }
+}
